@@ -71,6 +71,15 @@ for _n, _t in (('c11_nil_int', 'i64'), ('c11_nil_bool', 'bool'), ('c11_nil_float
                           scenario=lambda vals, t=_t: {'kind': 'scalar_rel', 'a': _sv(t, vals[0]), 'b': _sv(t, vals[0])},
                           confirm=lambda vals: (lambda r: r.get('outcome') != 'ok' or 'nil comparison' in laws_broken(r))))
 
+C11_SPECS.append(dict(name='c11_laws_datetime_datetime', types=['i32', 'i32', 'i8', 'i8'], desc='comparison laws for two date-times (base +- 90000 s, whole-hour offsets -12..+14): symmetry, duality, antisymmetry, Equal exactly when ==, equal values never strictly ordered',
+                      bounds={'instants': 'base +- 90000 seconds', 'offsets': '-12..+14 whole hours'},
+                      scenario=lambda vals: {'kind': 'scalar_rel', 'a': {'kind': 'datetime', 'days': 0, 'secs': vals[0], 'off': _i8(vals[2])}, 'b': {'kind': 'datetime', 'days': 0, 'secs': vals[1], 'off': _i8(vals[3])}},
+                      confirm=lambda vals: (lambda r: r.get('outcome') != 'ok' or bool(laws_broken(r)))))
+C11_SPECS.append(dict(name='c11_laws_date_datetime', types=['i8', 'i8', 'i32', 'i8'], desc='comparison laws for a date against a date-time (either side): symmetry, duality, antisymmetry, Equal exactly when ==',
+                      bounds={'date': 'base +- 2 days', 'date-time': 'base +- 2 days, any second of the day, whole-hour offsets -12..+14'},
+                      scenario=lambda vals: {'kind': 'scalar_rel', 'a': {'kind': 'date', 'days': _i8(vals[0])}, 'b': {'kind': 'datetime', 'days': _i8(vals[1]), 'secs': vals[2], 'off': _i8(vals[3])}},
+                      confirm=lambda vals: (lambda r: r.get('outcome') != 'ok' or bool(laws_broken(r)))))
+
 
 def _vec_confirm(vals):
     ln, idx = vals[0], vals[1]
